@@ -307,5 +307,5 @@ def cli_cases(draw):
 
 
 def subs(tier):
-    return [Sub("maps", cases(), run_case, quick=12000, thorough=80000),
-            Sub("cli", cli_cases(), run_cli, quick=96, thorough=400, needs=("rel", "h5x", "shim"), shrink_budget=16)]
+    return [Sub("maps", cases(), run_case, quick=12000, thorough=500000),
+            Sub("cli", cli_cases(), run_cli, quick=96, thorough=2000, needs=("rel", "h5x", "shim"), shrink_budget=16)]
